@@ -128,11 +128,23 @@ type MultisetCombinationIterator struct {
 	value []int
 
 	done bool //Set once there are no more multisets.
+
+	types []int //The types i with m[i] > 0. The state and m only contain these types.
+	freq  []int //A buffer slice to return the frequencies of all the types in.
 }
 
 //MultisetCombinations returns an iterator which iterates over all multisets containing k elements and with a maximum of m[i] elements of type i. Value returns the multiset of k items and FreqValue returns a slice v where v[i] is the number of i in the multiset.
 func MultisetCombinations(m []int, k int) *MultisetCombinationIterator {
-	return &MultisetCombinationIterator{state: nil, m: m, k: k}
+	//Algorithm Q requires every bound to be positive so we run it on the types with m[i] > 0 and translate back in Value and FreqValue.
+	types := make([]int, 0, len(m))
+	positiveM := make([]int, 0, len(m))
+	for i, v := range m {
+		if v > 0 {
+			types = append(types, i)
+			positiveM = append(positiveM, v)
+		}
+	}
+	return &MultisetCombinationIterator{state: nil, m: positiveM, k: k, types: types, freq: make([]int, len(m))}
 }
 
 //Value returns the multiset of k elements.
@@ -142,7 +154,7 @@ func (iter MultisetCombinationIterator) Value() []int {
 
 	for i, v := range iter.state {
 		for j := 0; j < v; j++ {
-			iter.value[c] = i
+			iter.value[c] = iter.types[i]
 			c++
 		}
 	}
@@ -153,7 +165,10 @@ func (iter MultisetCombinationIterator) Value() []int {
 //FreqValue returns a slice v where v[i] is the number of i in the multiset.
 //You must not modify the return value.
 func (iter MultisetCombinationIterator) FreqValue() []int {
-	return iter.state
+	for i, v := range iter.state {
+		iter.freq[iter.types[i]] = v
+	}
+	return iter.freq
 }
 
 //Next attempts to advance the iterator to the next multiset, returning true if there is one and false if not.
